@@ -59,6 +59,10 @@ CHECKS = {
    text="The RNG is replaced by its contract (geometric(): any integer >= 1; random(): any real in [0,1); sample/choice: any selection), so the skip-sampling loops of fast_random_hypergraph, uniform_erdos_renyi_hypergraph, uniform_HSBM, chung_lu/dcsbm and the per-candidate draws of random_hypergraph, random_simplicial_complex and the flag complexes are explored for every subset of candidates (paths), with the structural promises asserted on every path (exact node set, edges inside nodes, exact/allowed sizes, no repeats where forbidden, p=0 -> none, p=1 -> all without error, configuration model within prescribed degrees, closure, exactly the cliques). The three index decoders are decided with two symbolic indices (range + injectivity, hence bijection by counting).",
    note="Parameter grids bounded to <=10 candidate indices per order; probabilities in {0, 0.5, 1}; deterministic generators (complete_hypergraph, flag complexes without probabilities) have no solver variable and are exhaustive concrete grids; distributional correctness is outside.",
    technique="bounded symbolic execution (z3) of generators under a nondeterministic RNG stub; symbolic-index decoders"),
+ "C17": dict(level="other", ref="5/C17",
+   text="Seed determinism decided symbolically for the pure-Python consumers of random / numpy.random / geometric (22 seeded functions): each is executed twice in one path under stubs that name every draw R(stream, position); draws made after the function seeded a generator are shared solver variables, ambient draws are fresh ones, the seed is a solver integer (falsy seeds included) and z3 searches for draw values that make the two outputs differ. For functions that delegate to networkx only the forwarding of the seed is decided.",
+   note="Reduced reach, stated: one small parameter tuple per function; networkx generators/layouts are stubbed (seed forwarding only); spectral_clustering (ARPACK start vector, float k-means) cannot be entered by the stubs and is outside the claim.",
+   technique="bounded symbolic execution (z3) with stream-tagged uninterpreted RNG draws, two calls per path"),
 }
 NOT_APPLICABLE = {
  "C11": "disk round trips: every value that reaches a file passes through json/numpy C encoders which reject or realise a symbolic proxy, so no solver variable can cross the file boundary; in-memory halves are decided under C10/C04",
